@@ -16,7 +16,11 @@ RULE = ("A client polls a simulated inverter (ET in 5 model variants, DT in 4, E
         "adjacent bytes - i.e. every 2-byte field at any alignment - takes every 16-bit value exactly once while all "
         "other fields change too; further polls use all-zero, all-0xFF, boundary words {0000, FFFF, 7FFF, 8000, 0001, "
         "FFFE} (sentinels and their neighbours for 4/6/8-byte fields) and seeded random contents.  Values come from "
-        "read_runtime_data() (block window) and from read_sensor() (own-register window).  Oracle: value == "
+        "read_runtime_data() (block window) and from read_sensor() (own-register window); on ES also from "
+        "read_settings_data() / read_setting() for the settings table (settings outside the settings block - or cut "
+        "off by a settings block of another length, 0..90 bytes - must be None in the bulk result).  Device quirks "
+        "that must not influence any value: a wrong Modbus/TCP message-length field (data-only, 6, too large).  "
+        "Oracle: value == "
         "reference decode (sim/refdecode.py) of exactly the sensor's own bytes in the device's register file; since "
         "the reference depends on nothing else and all neighbours keep changing, equality is non-interference.  A "
         "benign-fault sub-batch repeats this under loss within the retry budget, in-time delay and fragmentation.  "
@@ -70,17 +74,25 @@ def exhaustive(tier):
     return tier == "thorough"
 
 
+MBAP_LEN = [None, "data", None, "six", None, "big"]
+ES_SETTINGS_LENS = [90, 86, 90, 70, 90, 66, 57, 90, 44, 33, 12, 0]
+
+
 def make_case(tier, seed, index):
     ci, fill, x, benign = _space(tier)[index]
     fam, var, tr = D.CONFIGS[ci]
+    # device quirks that must not influence any value: a wrong Modbus/TCP message length field (GoodWe devices are
+    # known for it, the library ignores the field) and, on ES, a settings block of another length
+    quirks = {"mbap_len": MBAP_LEN[index % len(MBAP_LEN)] if tr == "tcp" else None,
+              "es_settings_len": ES_SETTINGS_LENS[index % len(ES_SETTINGS_LENS)] if fam == "ES" else None}
     if fill == "step":
         total = STEP_POLLS[tier]
         mult = 40503 if total < 65536 else 1
         ks = [((x * CHUNK + i) * mult + seed * 7919) & 0xFFFF for i in range(CHUNK)]
-        return {"family": fam, "variant": var, "transport": tr, "fill": "step", "seed": seed & 0xFFFF, "ks": ks,
-                "benign": benign}
-    return {"family": fam, "variant": var, "transport": tr, "fill": fill,
-            "seed": (x if fill == "constw" else x * 31 + seed), "ks": [0, 1, 2, 3], "benign": False}
+        return dict({"family": fam, "variant": var, "transport": tr, "fill": "step", "seed": seed & 0xFFFF, "ks": ks,
+                     "benign": benign}, **quirks)
+    return dict({"family": fam, "variant": var, "transport": tr, "fill": fill,
+                 "seed": (x if fill == "constw" else x * 31 + seed), "ks": [0, 1, 2, 3], "benign": False}, **quirks)
 
 
 def simplify(case):
@@ -90,6 +102,10 @@ def simplify(case):
             out.append(dict(case, ks=[k]))
     if case.get("benign"):
         out.append(dict(case, benign=False))
+    if case.get("mbap_len"):
+        out.append(dict(case, mbap_len=None))
+    if case.get("es_settings_len") not in (None, 90):
+        out.append(dict(case, es_settings_len=90))
     return out
 
 
@@ -103,6 +119,10 @@ def run_case(case, oracle="plain"):
     world = World(max_steps=2_000_000)
     dev, inv = D.build(goodwe, fam, var, tr, case["seed"], case["fill"])
     world.net.add_device(C.HOST, C.port_of(tr), dev)
+    if case.get("mbap_len"):
+        dev.mbap_len = case["mbap_len"]
+    if case.get("es_settings_len") is not None:
+        dev.es_settings_len = case["es_settings_len"]
     violations = []
     stats = {"polls": 0, "values_checked": 0, "single_reads": 0}
     world.events = _Quiet()
@@ -157,7 +177,11 @@ def run_case(case, oracle="plain"):
                     if not R.same(data[sid], ref):
                         sn = next(s for s in sensors if s.id_ == sid)
                         own = D.own_bytes(dev, fam, sn, R.WIDTH[cls])
-                        violations.append(viol(f"C12:{fam}:{cls}",
+                        kx = cls
+                        if cls in ("Enum", "EnumH", "EnumL") and data[sid] == R.decode(
+                                cls, own, labels=getattr(sn, "_labels", None), enum_signed=True):
+                            kx = f"{cls}:signed-lookup:{sid}"   # the code byte was looked up as a signed number
+                        violations.append(viol(f"C12:{fam}:{kx}",
                                                f"{fam}/{var}/{tr} fill={case['fill']} k={k}: {sid} ({cls} @ {sn.offset}) "
                                                f"= {data[sid]!r}, own bytes {own.hex()} decode to {_show(ref)}"))
                         return
@@ -173,7 +197,19 @@ def run_case(case, oracle="plain"):
                             continue
                         w = R.WIDTH[scls]
                         if st_.offset < 1000:
-                            own = D.es_block(dev, 0x0109)[st_.offset:st_.offset + w]
+                            blk = D.es_block(dev, 0x0109)
+                            own = blk[st_.offset:st_.offset + w]
+                            if len(own) < w:
+                                # the block that was read ends before (or inside) this setting: there are no bytes to
+                                # interpret, anything but None is made up
+                                stats["values_checked"] += 1
+                                if sdata[st_.id_] is not None:
+                                    violations.append(viol(f"C12:ES-settings:{scls}:fabricated",
+                                                           f"{fam}/{var}/{tr} fill={case['fill']} k={k}: read_settings_data()"
+                                                           f"[{st_.id_!r}] = {sdata[st_.id_]!r:.80} although the {len(blk)} "
+                                                           f"byte settings block ends before offset {st_.offset + w}"))
+                                    return
+                                continue
                         elif st_.offset < 30000:
                             own = dev.get_aa55_bytes(st_.offset, (w + 1) // 2)[:w]
                         else:
@@ -205,7 +241,9 @@ def run_case(case, oracle="plain"):
                                 continue
                         if scls in ("EcoModeV1", "EcoModeV2"):
                             if ref is R.NOVALUE:
-                                bad = got is not None
+                                from .c11 import _day_ok
+                                # day-of-week bytes outside [0,127] u {-1} have no documented reading: no claim (C11)
+                                bad = got is not None and _day_ok(scls, own)
                             else:
                                 bad = got is None or any(R.eco_fields(got).get(kk) != vv for kk, vv in ref.items()
                                                          if kk in R.eco_fields(got) and kk not in ("days",))
